@@ -14,6 +14,8 @@ def items(tier):
         yield ("case", c)
     for c in syncu.parallel_cases(tier):
         yield ("parallel", c)
+    for c, bound in syncu.thread_cases(tier):
+        yield ("tparallel", c, bound)
 
 
 def run(ctx):
@@ -22,8 +24,12 @@ def run(ctx):
         "the outcome class must equal that of the real run on a fresh copy); exclude / selection clauses on every case "
         "(excluded names and unselected jobs neither created nor modified, newly cloned jobs included); deep=True on every "
         "differing-file shape at job and project level; parallel in {2, True} against the sequential destination tree on all "
-        "ordered 2- (thorough: 3-) shape projects"))
-    r.assumptions += ["parallel runs use the real ThreadPool; the tasks touch disjoint job directories, the comparison is on the final tree"]
+        "ordered 2- (thorough: 3-) shape projects, once free-running with the real ThreadPool and once under engine T: "
+        "every interleaving of the pool's threads with <= 1 (selected cases and thorough: 2) preemptions, scheduling points "
+        "before every mutating system call, each compared with the sequential destination tree"))
+    r.assumptions += ["engine T serialises the pool's threads (one runs at a time) and switches only before system calls; races "
+                      "between two byte-code instructions without a system call in between are not explored",
+                      "the free-running ThreadPool comparison is an additional smoke test, not part of the exhaustive claim"]
     return r
 
 
